@@ -15,6 +15,7 @@ Reading guide
 -/
 import EPV.Lemmas.ScopeMain
 import EPV.Lemmas.ScopeFuel
+import EPV.Lemmas.ScopeStatic
 namespace EPV.C05
 open EPV.Scope
 
@@ -112,6 +113,15 @@ theorem eval_eq_sem_partial (c : Cfg) (hq1 : c.q.callCopies = true) (hq2 : c.q.o
   · rw [h1, h2]; rfl
   · rw [h1, h2]; simp only [outOf]; rw [obs_rel h hv]
 
+/-- FULL STRENGTH on the binder fragment: for every program built from `for`, `let`, `some`,
+`every` (any nesting and shadowing), sequences, arithmetic, comparisons and dateTime operations —
+no inline function expression — the model equals the lexical specification, no hypothesis on
+scoping at all. -/
+theorem eval_eq_sem_binders (c : Cfg) (hq1 : c.q.callCopies = true) (hq2 : c.q.operandCopied = true)
+    (n : Nat) (e : Expr) (ρ : Env) (h : Heap) (hg : groundEnv ρ = true) (hf : noFn e = true) :
+    outOf (eval c n e ρ h) = semOut c.tz h n e ρ :=
+  eval_eq_sem_partial c hq1 hq2 n e ρ h hg (ws_of_noFn e (dom ρ) hf)
+
 /-- the same, keeping the function items: results are related by `VRel` (equal atomic items;
 function items with the same parameters and body whose closures agree on the scope of the body) -/
 theorem eval_rel_sem_partial (c : Cfg) (hq1 : c.q.callCopies = true) (hq2 : c.q.operandCopied = true)
@@ -130,6 +140,28 @@ theorem history_eq_sem_partial (n : Nat) (e : Expr) (steps : List Step) (h : Hea
   apply List.map_congr_left
   intro s hm
   exact eval_eq_sem_partial ⟨.fixed, s.tz⟩ rfl rfl n e s.ρ h (hs s hm).1 (hs s hm).2
+
+/-- STATIC SCOPING IS SOUND: if every variable reference of `e` is statically bound
+(`WS false (dom ρ) e`: by a binder or parameter around it, by the scope where the enclosing inline
+function is defined, or by a caller's variable), then no evaluation of `e` raises XPST0008 — neither
+in the lexical specification nor in the model of the Python code, at any depth bound. -/
+theorem well_scoped_never_unbound (c : Cfg) (hq1 : c.q.callCopies = true) (hq2 : c.q.operandCopied = true)
+    (n : Nat) (e : Expr) (ρ : Env) (h : Heap) (hg : groundEnv ρ = true) (hw : WS false (dom ρ) e = true) :
+    sem c.tz h n e ρ ≠ .error .unbound ∧ eval c n e ρ h ≠ .error .unbound := by
+  have hi : Inv none false (dom ρ) ρ ρ := by
+    have := Inv.top hg
+    exact ⟨this.1, this.2.1, fun hf => by cases hf⟩
+  have hs : sem c.tz h n e ρ ≠ .error .unbound := by
+    intro he
+    have := sem_sound c.tz h n e (dom ρ) ρ hw hi
+    rw [he] at this
+    exact this rfl
+  refine ⟨hs, ?_⟩
+  intro hu
+  have hr := eval_sem_related c hq1 hq2 h n e false (dom ρ) ρ ρ hw hi
+  rcases hr.cases with ⟨er, h1, h2⟩ | ⟨v1, v2, h1, _, _⟩
+  · rw [h1] at hu; cases hu; exact hs h2
+  · rw [h1] at hu; cases hu
 
 /-- `let $f := function(){ $y } return let $y := 9 return $f()` -/
 def f05cWitness : Expr := .letE 1 (.fn [] (.var 5)) (.letE 5 (.int 9) (.call0 (.var 1)))
